@@ -22,13 +22,16 @@ func (i *kvIndex) Get(key string) interface{} {
 }
 
 func (i *kvIndex) UpdateIndex(oplog ipfslog.Log, _ []ipfslog.Entry) error {
+	// the log is read under the lock: two updates can run concurrently (each writer
+	// refreshes the index after its own append) and the one that read first must not
+	// install its older picture last
+	i.muIndex.Lock()
+	defer i.muIndex.Unlock()
+
 	entries := oplog.Values().Slice()
 	size := len(entries)
 
 	handled := map[string]struct{}{}
-
-	i.muIndex.Lock()
-	defer i.muIndex.Unlock()
 
 	for idx := range entries {
 		item, err := operation.ParseOperation(entries[size-idx-1])
